@@ -244,7 +244,56 @@ func pooledOps() []pop {
 			_, err := core.NewClientCodec().Decode([]byte("Es4\"boom\"z"), cc)
 			return fmt.Sprint(err)
 		}},
+		// direct users of the public pool API
+		{"pool-encoder-with-writer", func() string {
+			enc := hio.GetEncoder()
+			w := new(bytes.Buffer)
+			enc.Writer = w
+			err := enc.Encode([]interface{}{"to-my-writer", "to-my-writer"})
+			hio.FreeEncoder(enc)
+			sinks = append(sinks, sink{w, w.Len()})
+			return fmt.Sprintf("%q %v", w.String(), err)
+		}},
+		{"pool-decoder-with-options", func() string {
+			dec := hio.GetDecoder().ResetBytes(structList)
+			dec.StructType, dec.ListType, dec.LongType = hio.StructTypeValue, hio.ListTypeSlice, hio.LongTypeBigInt
+			var v interface{}
+			dec.Decode(&v)
+			err := dec.Error
+			hio.FreeDecoder(dec)
+			return fmt.Sprintf("%s err=%v", render(reflect.ValueOf(&v).Elem(), 0), err)
+		}},
+		{"pool-decoder-bytes-then-reader", func() string {
+			input := append([]byte{}, simBytes...)
+			dec := hio.GetDecoder().ResetBytes(input)
+			var v, w interface{}
+			dec.Decode(&v)
+			dec.ResetReader(bytes.NewReader(refBytes))
+			dec.Simple(false)
+			dec.Decode(&w)
+			err := dec.Error
+			hio.FreeDecoder(dec)
+			return fmt.Sprintf("%s %s err=%v caller's-input-intact=%v", render(reflect.ValueOf(&v).Elem(), 0), render(reflect.ValueOf(&w).Elem(), 0), err, bytes.Equal(input, simBytes))
+		}},
 	}
+}
+
+// sinks are the writers that users of pooled encoders have set; after its user has freed the encoder nothing may
+// arrive in a writer any more.
+type sink struct {
+	w *bytes.Buffer
+	n int
+}
+
+var sinks []sink
+
+func sinksGrew() bool {
+	for _, s := range sinks {
+		if s.w.Len() != s.n {
+			return true
+		}
+	}
+	return false
 }
 
 func pooledSequences(shard, nshards int, thorough bool) h.SeqResult {
@@ -261,6 +310,7 @@ func pooledSequences(shard, nshards int, thorough bool) h.SeqResult {
 	}
 	h.ForEachSeq(len(ops), depth, shard, nshards, func(seq []int) {
 		hio.VerifDrainPools()
+		sinks = nil
 		var names []string
 		vs.Seq(vs.Config{}, func() {
 			for k, x := range seq {
@@ -271,15 +321,27 @@ func pooledSequences(shard, nshards int, thorough bool) h.SeqResult {
 							r = fmt.Sprint("PANIC ", p)
 						}
 					}()
-					return ops[x].run()
+					r = ops[x].run()
+					if sinksGrew() {
+						r += " [A WRITER SET BY AN EARLIER USER OF A POOLED ENCODER RECEIVED BYTES]"
+					}
+					return r
 				}()
 				res.Transitions++
+				if strings.Contains(got, "caller's-input-intact=false") {
+					res.Violate("pooled|decoder-overwrites-the-input-of-an-earlier-ResetBytes", fmt.Sprintf("sequence %v: operation %d: after ResetBytes(input) and ResetReader(r) on one decoder the reader's data was read into the caller's input slice: %q", names, k, got), map[string]interface{}{"kind": "pooled-sequence", "ops": names})
+					return
+				}
 				if got != fresh[x] {
 					prev := "(first)"
 					if k > 0 {
 						prev = ops[seq[k-1]].name
 					}
-					res.Violate("pooled|result-depends-on-previous-use|op="+ops[x].name+"|after="+prev,
+					sig := "pooled|result-depends-on-previous-use|op=" + ops[x].name + "|after=" + prev
+					if strings.Contains(got, "A WRITER SET BY AN EARLIER USER") {
+						sig = "pooled|writer-set-by-an-earlier-user-of-a-pooled-encoder-receives-bytes"
+					}
+					res.Violate(sig,
 						fmt.Sprintf("sequence %v: operation %d gives %q, on fresh coders it gives %q", names, k, got, fresh[x]),
 						map[string]interface{}{"kind": "pooled-sequence", "ops": names})
 					return
